@@ -321,3 +321,45 @@ func H_C04_Aligned() {
 	vrt.Assert(m.Close() == nil, "aligned/mmap-close-no-error")
 	vrt.Reach("aligned/end")
 }
+
+// H_C04_Large: a record larger than every pool bucket and buffer (one byte more than 512 KiB, and 512 KiB exactly)
+// between two small ones.
+func H_C04_Large() {
+	fs := vrt.NewFS()
+	defer fs.Cleanup()
+	comp := []int{CompressionTypeNone, CompressionTypeSnappy}[vrt.Choose("comp", 2)]
+	size := (1 << 19) + vrt.Choose("over", 2)
+	big := make([]byte, size)
+	big[0], big[size/2], big[size-1] = 1, vrt.Byte("mid"), 2
+	recs := [][]byte{{vrt.Byte("first")}, big, {vrt.Byte("last")}}
+	p := fs.Path("f.rio")
+	offs, fsize := vWriteFile(fs, p, comp, 4096, recs)
+	vrt.Assert(fsize > uint64(size) || comp != CompressionTypeNone, "large/file-holds-the-record")
+
+	r, err := NewFileReader(ReaderPath(p), ReaderBufferSizeBytes(4096))
+	vrt.Assert(err == nil && r.Open() == nil, "large/reader-open-no-error")
+	var seq [][]byte
+	for i := range recs {
+		got, err := r.ReadNext()
+		vrt.Assert(err == nil, "large/sequential-read-no-error")
+		vrt.Assert(vrt.SameBytes(got, recs[i]), "large/sequential-record-unchanged")
+		seq = append(seq, got)
+	}
+	_, err = r.ReadNext()
+	vrt.Assert(errors.Is(err, io.EOF), "large/sequential-then-eof")
+	vrt.Assert(r.Close() == nil, "large/reader-close-no-error")
+	for i := range seq {
+		vrt.Assert(vrt.SameBytes(seq[i], recs[i]), "large/results-still-intact-after-close")
+	}
+
+	m, err := NewMemoryMappedReaderWithPath(p)
+	vrt.Assert(err == nil && m.Open() == nil, "large/mmap-open-no-error")
+	for i := len(recs) - 1; i >= 0; i-- {
+		got, err := m.ReadNextAt(offs[i])
+		vrt.Assert(err == nil, "large/random-access-no-error")
+		vrt.Assert(vrt.SameBytes(got, recs[i]), "large/random-access-record-unchanged")
+	}
+	vrt.Assert(m.Close() == nil, "large/mmap-close-no-error")
+	vrt.TraceBool("done", true)
+	vrt.Reach("large/end")
+}
